@@ -26,7 +26,7 @@ Definition case : Type := (N * list Z * list cop)%type.     (* id, peer ids of t
 Definition opt_eqb {A} (e : A -> A -> bool) (a b : option A) : bool :=
   match a, b with Some x, Some y => e x y | None, None => true | _, _ => false end.
 Definition pub_eqb (a b : publish) : bool :=
-  String.eqb (p_topic a) (p_topic b) && String.eqb (p_payload a) (p_payload b) && (p_qos a =? p_qos b) && Bool.eqb (p_retain a) (p_retain b).
+  String.eqb (p_topic a) (p_topic b) && String.eqb (p_payload a) (p_payload b) && (p_qos a =? p_qos b) && Bool.eqb (p_retain a) (p_retain b) && Bool.eqb (p_dup a) (p_dup b).
 Definition smeta_eqb (a b : smeta) : bool :=
   String.eqb (m_sid a) (m_sid b) && String.eqb (m_cid a) (m_cid b) && String.eqb (m_mp a) (m_mp b) && (m_peer a =? m_peer b)
   && opt_eqb pub_eqb (m_lwt a) (m_lwt b) && (m_la a =? m_la b) && (m_ld a =? m_ld b).
